@@ -405,7 +405,7 @@ impl Monitor for C09 {
     }
     fn streams(&self, tier: Tier, budget: f64) -> Vec<Stream> {
         let n = match tier {
-            Tier::Quick => 30_000,
+            Tier::Quick => 250_000,
             Tier::Thorough => 2_000_000,
         };
         vec![Stream::new("forced-layouts", forced().len() as u64 * 4), Stream::new("random-layouts", scaled(n, budget))]
